@@ -18,10 +18,78 @@ from . import env
 from . import probes
 
 HTML5LIB_DIR = os.path.join(env.REPO, "html5lib") + os.sep
-HOT = {"moduleFactory", "getTreeBuilder", "getTreeWalker", "getETreeBuilder", "getDomBuilder", "keys", "getETreeModule",
-       "getDomModule"}
-WARM = {"charsUntil", "processStartTag", "processEndTag", "__init__", "lookupEncoding"}
 MAX_STEPS = 600000
+
+# --------------------------------------------------------------------------
+# Which code is "hot" (touches state shared by independent caller threads) is
+# derived from the code itself, not from a list of names, so that a cache or
+# memoisation added anywhere in html5lib is covered too:
+#   (a) functions whose code names a module-level mutable container of their
+#       own module (dict/list/set/bytearray not defined in html5lib.constants),
+#   (b) functions closing over a mutable container (moduleFactoryFactory),
+#   (c) methods called on an instance that is bound at module level somewhere
+#       in html5lib (e.g. the entities trie shared by every tokenizer),
+#   (d) methods naming a mutable container that is a class attribute.
+_MUTABLE = (dict, list, set, bytearray)
+_shared = {"built": False}
+
+
+def _build_shared_index():
+    import types
+    const_mod = sys.modules.get("html5lib.constants")
+    const_ids = {id(v) for v in vars(const_mod).values()} if const_mod else set()
+    mutable_globals = {}     # module name -> set of global names bound to mutable containers
+    shared_instances = set()  # ids of instances of html5lib classes bound at module level
+    class_mutables = {}      # class qualname -> names of mutable class attributes
+    for mname, mod in list(sys.modules.items()):
+        if mod is None or not (mname == "html5lib" or mname.startswith("html5lib.")) or ".tests" in mname:
+            continue
+        if mname == "html5lib.constants":
+            continue
+        names = set()
+        for name, v in list(vars(mod).items()):
+            if name.startswith("__"):
+                continue
+            if isinstance(v, _MUTABLE) and id(v) not in const_ids:
+                names.add(name)
+            elif (not isinstance(v, (type, types.ModuleType, types.FunctionType, types.BuiltinFunctionType, str, bytes, int,
+                                     float, tuple, frozenset, bool, type(None)))
+                  and type(v).__module__.startswith("html5lib") and id(v) not in const_ids):
+                shared_instances.add(id(v))
+            if isinstance(v, type) and v.__module__ == mname:
+                attrs = {a for a, av in vars(v).items() if isinstance(av, _MUTABLE) and not a.startswith("__")}
+                if attrs:
+                    class_mutables[v.__qualname__] = attrs
+        mutable_globals[mname] = names
+    _shared.update(built=True, mutable_globals=mutable_globals, shared_instances=shared_instances,
+                   class_mutables=class_mutables, code_hot={})
+
+
+def frame_is_hot(frame):
+    if not _shared["built"]:
+        _build_shared_index()
+    code = frame.f_code
+    cache = _shared["code_hot"]
+    static = cache.get(code)
+    if static is None:
+        names = set(code.co_names)
+        static = bool(names & _shared["mutable_globals"].get(frame.f_globals.get("__name__"), set()))
+        if not static and code.co_freevars:
+            loc = frame.f_locals
+            static = any(isinstance(loc.get(fv), _MUTABLE) for fv in code.co_freevars)
+        if not static:
+            qual = getattr(code, "co_qualname", "")
+            cls = qual.rsplit(".", 1)[0] if "." in qual else None
+            if cls and names & _shared["class_mutables"].get(cls, set()):
+                static = True
+        cache[code] = static
+    if static:
+        return True
+    if code.co_argcount and code.co_varnames[0] == "self":
+        me = frame.f_locals.get("self")
+        if me is not None and id(me) in _shared["shared_instances"]:
+            return True
+    return False
 
 
 class _Worker(object):
@@ -58,45 +126,46 @@ class Baton(object):
         baton = self
         prefix = HTML5LIB_DIR
 
-        def local(frame, event, arg):
-            if event != "line":
+        def make_local(hot):
+            p = baton.p_hot if hot else baton.p_cold
+
+            def local(frame, event, arg):
+                if event != "line":
+                    return local
+                w.steps += 1
+                baton._cur_steps += 1
+                baton.total_steps += 1
+                if baton.total_steps > MAX_STEPS:
+                    baton.overrun = True
+                    return None
+                if baton.replay is not None:
+                    if w.quantum_left is not None:
+                        w.quantum_left -= 1
+                        if w.quantum_left <= 0:
+                            baton._yield(w, frame, hot)
+                    return local
+                if baton.rng.random() < p:
+                    baton._yield(w, frame, hot)
                 return local
-            w.steps += 1
-            baton._cur_steps += 1
-            baton.total_steps += 1
-            if baton.total_steps > MAX_STEPS:
-                baton.overrun = True
-                return None
-            if baton.replay is not None:
-                if w.quantum_left is not None:
-                    w.quantum_left -= 1
-                    if w.quantum_left <= 0:
-                        baton._yield(w, frame)
-                return local
-            name = frame.f_code.co_name
-            if name in HOT:
-                p = baton.p_hot
-            elif name in WARM:
-                p = baton.p_warm
-            else:
-                p = baton.p_cold
-            if baton.rng.random() < p:
-                baton._yield(w, frame)
             return local
+        local_hot = make_local(True)
+        local_cold = make_local(False)
 
         def tracer(frame, event, arg):
             if frame.f_code.co_filename.startswith(prefix):
-                return local
+                return local_hot if frame_is_hot(frame) else local_cold
             return None
         return tracer
 
-    def _yield(self, w, frame):
+    def _yield(self, w, frame, hot=None):
         others = [o for o in self.workers if not o.done and o is not w]
         if not others:
             return
         self.preemptions += 1
         name = frame.f_code.co_name
-        if name in HOT:
+        if hot is None:
+            hot = frame_is_hot(frame)
+        if hot:
             self.hot_preemptions += 1
             w.hot_yields += 1
             self.order_digest.append((w.tid, name, frame.f_lineno))
@@ -154,6 +223,15 @@ class Baton(object):
 # ==========================================================================
 # the M3 case: threads with private objects
 
+# documents that lean on structures shared by every parser in the process
+# (entity trie, charsUntil regex cache, handler dispatch tables, factories)
+SHARED_DOCS = [
+    ["fish &amp; chips"], ["1 &lt; 2 &gt; 0"], ["&notin;", "&not", "&notit;"], ["&amp;", "&lt;", "&amp;"], ["<a href='?a=1&amp;b=2&copy=3'>"],
+    ["&AElig;", "&aacute;", "&zwnj;", "&CounterClockwiseContourIntegral;"], ["&am", "&lt"], ["x &amp y &lt z"], ["&#65;&amp;&#x41;"],
+    ["<p title='&quot;&apos;'>", "&nbsp;"], ["<!--c-->", "<!DOCTYPE html>", "<p a=b c='d' e=\"f\">", "</p>"], ["&lang;", "&rang;", "&le;", "&ge;"],
+]
+
+
 def gen_case(rng):
     from . import c12
     n_threads = rng.choice([2, 2, 3])
@@ -164,7 +242,10 @@ def gen_case(rng):
             r = rng.random()
             builder = rng.choice(["etree", "etree", "etree_full", "dom"])
             if r < 0.45:
-                doc = c12.pick_doc(rng, rng.choice(["setter", "observer", "soup"]))
+                if rng.random() < 0.45:
+                    doc = list(rng.choice(SHARED_DOCS)) + (list(rng.choice(SHARED_DOCS)) if rng.random() < 0.5 else [])
+                else:
+                    doc = c12.pick_doc(rng, rng.choice(["setter", "observer", "soup"]))
                 op = {"op": "api_parse", "doc": doc[:8], "builder": builder, "ns": rng.random() < 0.8}
                 if rng.random() < 0.3:
                     op["op"] = "api_frag"
@@ -228,12 +309,20 @@ _WARM_DOC = "<!DOCTYPE html><title>t</title><p a=b>x&amp;y<table><tr><td>z</tabl
 
 
 def warm_up():
+    try:
+        _warm_up()
+    except Exception:
+        # best effort: whatever the library raises here will show up again,
+        # properly attributed, in the run itself
+        pass
+
+
+def _warm_up():
     import html5lib
     from html5lib import serializer
     for b in ("etree", "etree_full", "dom"):
-        p = html5lib.HTMLParser(tree=_api_tb(b))
-        tree = p.parse(_WARM_DOC)
-        p.parseFragment(_WARM_DOC)
+        tree = html5lib.HTMLParser(tree=_api_tb(b)).parse(_WARM_DOC)
+        html5lib.HTMLParser(tree=_api_tb(b)).parseFragment(_WARM_DOC)
         if b != "etree_full":
             serializer.serialize(tree, tree="dom" if b == "dom" else "etree", sanitize=True)
             serializer.serialize(tree, tree="dom" if b == "dom" else "etree", encoding="utf-8")
@@ -294,7 +383,7 @@ def execute(case):
     for tid, (tspec, rs) in enumerate(zip(case["threads"], results)):
         for oi, (op, out) in enumerate(zip(tspec["ops"], rs)):
             key = json.dumps(op, sort_keys=True)
-            ref = _ref_memo.get(key)
+            ref = _ref_memo.get(key) if False else None   # references are recomputed per case (state may be poisoned)
             if ref is None:
                 saved = dict(probes.PROBES)
                 ref = run_api_op(op)
